@@ -50,6 +50,8 @@ pub fn probes(_tier: &str) -> Vec<String> {
     "probe.alias_service_same_did_and_fragment",
     "fault.storage.endpoint_bit_rot",
     "probe.damaged_endpoint_rejected",
+    "probe.validated_after_expiry",
+    "probe.service_type_spelled_as_array",
   ]
   .iter()
   .map(|s| (*s).to_owned())
@@ -234,6 +236,27 @@ pub fn run(params: &Params) {
     }
     services.push(sid);
   }
+  // a document assembled elsewhere may spell the type of a service as an array (one or several types)
+  if ctx::choose(4) == 0 {
+    let mut v = serde_json::to_value(issuer.doc.core()).unwrap();
+    if let Some(a) = v.get_mut("service").and_then(|s| s.as_array_mut()) {
+      let k = ctx::choose(a.len().max(1));
+      if let Some(svc) = a.get_mut(k) {
+        svc["type"] = if ctx::choose(2) == 0 {
+          serde_json::json!(["RevocationBitmap2022"])
+        } else {
+          serde_json::json!(["RevocationBitmap2022", "SimArchive"])
+        };
+      }
+    }
+    if let Ok(core) = CoreDocument::from_json_value(v) {
+      issuer.doc = match &issuer.doc {
+        AnyDoc::Core(_) => AnyDoc::Core(core),
+        AnyDoc::Iota(_) => AnyDoc::Iota(identity_iota_core::IotaDocument::from(core)),
+      };
+      ctx::stat("probe.service_type_spelled_as_array");
+    }
+  }
   // optionally the document also lists a bitmap service of ANOTHER DID with the same fragment as the issuer's first
   // service and different content: lookups must go by the full id named in the status entry / the call
   let foreign_same_fragment = ctx::choose(3) == 0;
@@ -260,7 +283,7 @@ pub fn run(params: &Params) {
   version_models.push(BTreeMap::new()); // v1 (no services)
   version_models.push(model.clone()); // v2
   let mut next_seq = 0u32;
-  let mut credentials: Vec<(String, String, u32)> = Vec::new(); // (jwt, service id, index)
+  let mut credentials: Vec<(String, String, u32, Option<i64>)> = Vec::new(); // (jwt, service id, index, expiry)
   // one run in fifty is a long history
   let steps = if ctx::chance(1, 50) {
     ctx::stat("probe.long_history");
@@ -318,7 +341,7 @@ pub fn run(params: &Params) {
         } else {
           sid.clone()
         };
-        let cred = serde_json::json!({
+        let mut cred = serde_json::json!({
           "@context": "https://www.w3.org/2018/credentials/v1",
           "id": format!("https://cred.example/{step}"),
           "type": ["VerifiableCredential"],
@@ -327,13 +350,19 @@ pub fn run(params: &Params) {
           "credentialSubject": {"id": "did:sim:subject", "n": step},
           "credentialStatus": {"id": status_id, "type": "RevocationBitmap2022", "revocationBitmapIndex": index.to_string()}
         });
+        // one credential in four is short-lived: by the time it is validated it may ALSO have expired, and a
+        // revoked credential must still be reported revoked then
+        let expires: Option<i64> = if ctx::choose(4) == 0 { Some(clock.now + issuer.skew + 40 + ctx::choose(4000) as i64) } else { None };
+        if let Some(e) = expires {
+          cred["expirationDate"] = crate::core::time::rfc3339(e).into();
+        }
         let Ok(cred) = Credential::<Object>::from_json_value(cred) else { continue };
         let jwt = match &issuer.doc {
           AnyDoc::Core(d) => block_on(d.create_credential_jwt(&cred, &issuer.storage, "sign", &JwsSignatureOptions::default(), None)),
           AnyDoc::Iota(d) => block_on(d.create_credential_jwt(&cred, &issuer.storage, "sign", &JwsSignatureOptions::default(), None)),
         };
         if let Ok(jwt) = jwt {
-          credentials.push((jwt.as_str().to_owned(), sid, index));
+          credentials.push((jwt.as_str().to_owned(), sid, index, expires));
         }
       }
     }
@@ -349,7 +378,11 @@ pub fn run(params: &Params) {
       let vm = &version_models[v - 1];
       let verifier_skew = ctx::range(0, 30);
       clock.enter(verifier_skew);
-      let (jwt, sid, index) = credentials[ctx::choose(credentials.len())].clone();
+      let (jwt, sid, index, expires) = credentials[ctx::choose(credentials.len())].clone();
+      let expired = expires.map(|e| e < clock.now + verifier_skew).unwrap_or(false);
+      if expired {
+        ctx::stat("probe.validated_after_expiry");
+      }
       // I6.2: the bitmap as resolved by the verifier equals the model of that version
       if let Some(m) = vm.get(&sid) {
         ctx::stat("probe.resolved_bitmap_checked");
@@ -377,11 +410,19 @@ pub fn run(params: &Params) {
           "validation/revoked-but-accepted",
           format!("index {index} is revoked in version {v} of {sid} but the credential was accepted"),
         ),
+        (Ok(Ok(_)), Some(false)) if expired => ctx::violation(
+          "C06",
+          "C06.validation_reports_exactly_members",
+          "validation/expired-but-accepted",
+          format!("credential for index {index} had expired at validation time but was accepted"),
+        ),
         (Ok(Ok(_)), _) => ctx::stat("probe.validation_not_revoked"),
         (Ok(Err(e)), Some(false)) => {
           let revoked = e.validation_errors.iter().any(|x| matches!(x, JwtValidationError::Revoked));
           let names: Vec<&'static str> = e.validation_errors.iter().map(|x| x.into()).collect();
-          if revoked {
+          if expired && !revoked && names == vec!["ExpirationDate"] {
+            ctx::stat("probe.validation_expired_not_revoked");
+          } else if revoked {
             ctx::violation(
               "C06",
               "C06.validation_reports_exactly_members",
